@@ -223,12 +223,26 @@ def _child(fn, args, conn):
     os._exit(0)
 
 
-def run_jobs(jobs, nproc, deadline=3600):
-    """jobs: [(name, fn, args)] -> {name: result}; each job in its own forked process"""
+def run_jobs(jobs, nproc, deadline=3600, total=None):
+    """jobs: [(name, fn, args)] -> {name: result}; each job in its own forked process.  deadline: per job; total: budget for the whole set
+    (jobs not finished by then are reported as errors, i.e. inconclusive - never as verdicts)"""
+    t_start = time.time()
     ctx = mp.get_context('fork')
     pending = list(jobs)
     running, results = {}, {}
     while pending or running:
+        if total is not None and time.time() - t_start > total:
+            for name, _, _ in pending:
+                results[name] = dict(error='not started: total budget of the job set used up')
+            pending = []
+            for name in list(running):
+                p, pc, _ = running[name]
+                p.kill()
+                results[name] = dict(error='stopped: total budget of the job set used up')
+                pc.close()
+                p.join(1)
+                del running[name]
+            break
         while pending and len(running) < nproc:
             name, fn, args = pending.pop(0)
             pc, cc = ctx.Pipe(duplex=False)
